@@ -1274,8 +1274,17 @@ pub fn walk_fault(sc: &Scenario, rr: &RunResult, mode: FaultMode) -> Vec<Mismatc
                         }
                         r
                     };
+                    let errored = st.state == model::SState::Error;
                     st.state = model::SState::Closed;
-                    if !model::fin_matches(actual, &Ret::Fin(e.clone())) {
+                    let mut ok = model::fin_matches(actual, &Ret::Fin(e.clone()));
+                    if !ok && errored && !exact {
+                        // the driver may have died before it read everything that was delivered: the
+                        // references collected by the adapter are then a prefix of the modelled ones
+                        if let Ret::Fin(a) = actual {
+                            ok = a.rc == e.rc && a.ctrls.is_empty() && e.refs.starts_with(&a.refs);
+                        }
+                    }
+                    if !ok {
                         push(format!("{:?}", e), format!("{:?}/finish", st.adapter), false);
                     }
                 }
